@@ -126,6 +126,9 @@ type Config struct {
 	// ("file.go:line") are the slow ones instead of one task chosen by id (directed
 	// exploration: "the goroutine that has just passed this point is descheduled")
 	StallSites []string
+	// OpenFileLimit: capacity of esbuild's open-file limiter in this run (0 = the shipped 32);
+	// a tuning knob that is randomised so that correctness never depends on one value
+	OpenFileLimit int
 }
 
 type Sim struct {
@@ -192,6 +195,16 @@ func Progress() int64 { return atomic.LoadInt64(&progress) }
 //
 //go:norace
 func act() *Sim { return active }
+
+// OpenFileLimit returns the capacity the open-file limiter has in the running simulation.
+//
+//go:norace
+func OpenFileLimit() int {
+	if s := active; s != nil && s.cfg.OpenFileLimit > 0 {
+		return s.cfg.OpenFileLimit
+	}
+	return 32
+}
 
 // Active reports whether a simulation is running (false = pass-through).
 //
@@ -709,6 +722,10 @@ func (s *Sim) loop() {
 		<-s.kick
 	}
 }
+
+// LeakedOpenFileSlots: slots of esbuild's open-file limiter that were still taken when the
+// last run ended (set by the internal/fs hook; every build of the run had returned by then).
+var LeakedOpenFileSlots int
 
 var perRunResets []func()
 
